@@ -35,17 +35,26 @@ pub assume_specification[ HeaderMap::<HeaderValue>::new ]() -> (r: HeaderMap<Hea
     ensures hm_view(&r) == Seq::<(Seq<u8>, HeaderValue)>::empty();
 pub assume_specification<T>[ HeaderMap::<T>::len ](h: &HeaderMap<T>) -> (r: usize)
     ensures r == hm_view(h).len();
+pub uninterp spec fn key_view<K>(k: K) -> Seq<u8>;
+/// HeaderName::from_bytes accepts exactly the RFC 9110 tokens and lower-cases them (assumed; `http` crate)
+pub uninterp spec fn hn_ok(b: Seq<u8>) -> bool;
+pub uninterp spec fn hn_canon(b: Seq<u8>) -> Seq<u8>;
+/// HeaderValue::from_bytes accepts bytes >= 0x20 except DEL, plus TAB (assumed; `http` crate)
+pub uninterp spec fn hv_ok(b: Seq<u8>) -> bool;
+pub assume_specification<T, K: http::header::IntoHeaderName>[ HeaderMap::<T>::append::<K> ](h: &mut HeaderMap<T>, k: K, v: T) -> (r: bool)
+    ensures hm_view(final(h)) == hm_view(old(h)).push((key_view(k), v));
+pub assume_specification<'a>[ HeaderName::from_bytes ](b: &'a [u8]) -> (r: std::result::Result<HeaderName, http::header::InvalidHeaderName>)
+    ensures r is Ok <==> hn_ok(b@), r matches Ok(n) ==> key_view(n) == hn_canon(b@);
 pub assume_specification<'a>[ HeaderValue::from_bytes ](b: &'a [u8]) -> (r: std::result::Result<HeaderValue, http::header::InvalidHeaderValue>)
-    ensures r matches Ok(v) ==> hv_bytes(&v) == b@;
+    ensures r is Ok <==> hv_ok(b@), r matches Ok(v) ==> hv_bytes(&v) == b@;
 pub assume_specification[ <http::Error as From<http::header::InvalidHeaderValue>>::from ](e: http::header::InvalidHeaderValue) -> (r: http::Error);
 pub assume_specification[ <Error as From<http::Error>>::from ](e: http::Error) -> (r: Error);
 
 // ---- generic std idioms over header lists (R1 wrappers; bodies are the repo's adapter chains with the closure abstracted)
 pub uninterp spec fn split_on(s: Seq<char>, sep: char) -> Seq<Seq<char>>;
-pub uninterp spec fn str_trim_spec(s: Seq<char>) -> Seq<char>;
 pub uninterp spec fn ascii_lower(s: Seq<char>) -> Seq<char>;
 /// trimmed tokens of a separator-delimited list
-pub open spec fn tokens(s: Seq<char>, sep: char) -> Seq<Seq<char>> { split_on(s, sep).map_values(|t: Seq<char>| str_trim_spec(t)) }
+pub open spec fn tokens(s: Seq<char>, sep: char) -> Seq<Seq<char>> { split_on(s, sep).map_values(|t: Seq<char>| trim_spec(t)) }
 
 /// `val.split(SEP).map(|s| s.trim()).any(P)` with SEP and P abstracted
 #[verifier::external_body]
